@@ -58,7 +58,9 @@ fn start_doc(k: usize) -> Document {
             // that becomes the last-but-two one after compaction (11 objects; 11 itself is also dangling and is the LAST one), to a gap above it and to a number beyond max_id
             // "Stale" comes first: references with the number of a live object but another generation are met
             // before the genuine references to (4, 0) and (10, 0)
-            put(1, d(vec![("Type", name("Catalog")), ("Stale", arr(vec![Object::Reference((4, 1)), Object::Reference((10, 7))])), ("Pages", r(2)), ("Gone", arr(vec![r(5), r(9), r(11), r(99)]))]));
+            put(1, d(vec![("Type", name("Catalog")), ("Stale", arr(vec![Object::Reference((4, 1)), Object::Reference((10, 7))])), ("Pages", r(2)), ("Gone", arr(vec![r(5), r(9), r(11), r(99)])),
+                // one dictionary holding the same reference under two keys, the second one LAST (outline roots look like this)
+                ("Pair", d(vec![("First", r(12)), ("Count", Object::Integer(1)), ("Last", r(12))])), ("Trio", d(vec![("A", r(6)), ("B", r(6)), ("C", r(6))]))]));
             put(2, d(vec![("Type", name("Pages")), ("Kids", arr(vec![r(4), r(3)])), ("Count", Object::Integer(2))]));
             put(3, d(vec![("Type", name("Page")), ("Parent", r(2)), ("Contents", r(6)), ("Resources", r(7))]));
             put(4, d(vec![("Type", name("Page")), ("Parent", r(2)), ("Contents", arr(vec![r(8)])), ("Resources", r(7)), ("Next", r(9))]));
@@ -454,6 +456,10 @@ fn alphabet() -> Vec<Op> {
     v.push(Op::DeletePages(vec![1]));
     v.push(Op::DeletePages(vec![2]));
     v.push(Op::DeletePages(vec![1, 2]));
+    // unusual but legal argument lists: a repeated number, unsorted, a number that does not exist
+    v.push(Op::DeletePages(vec![2, 2]));
+    v.push(Op::DeletePages(vec![2, 1, 2]));
+    v.push(Op::DeletePages(vec![7, 1]));
     v.push(Op::Renumber);
     v.push(Op::RenumberWith(5));
     v.push(Op::Compress);
